@@ -367,6 +367,10 @@ func buildVia0(route int, lit CfgLit, debug bool, early **earlyWrap, extra ...vl
 	if err != nil {
 		return nil, err
 	}
+	// what crossed the API boundary is the caller's: the Config that was passed in and every Config() result are
+	// overwritten in place with an attacker's values (the middleware must not be looking at them any more)
+	scribbleConfig(&cfg)
+	scribbleConfig(m.Config())
 	if debug && (route == 0 || route == 1 || route == 4 || route == 8) {
 		// On these routes debug mode is off by documentation (after creation, on and after passthrough): it is only
 		// ever switched ON here, never "repaired" to off. On the other routes the mode was set before the last
